@@ -1,6 +1,7 @@
 import Flurry.Seq.Model
 import Flurry.Gen.Serde
 import Flurry.Spec.Bulk
+import Flurry.Lin
 /-! # Line-protocol driver for the sequential model (`lean_exe flurry-model`)
 
 One request per line on stdin, one answer per line on stdout. Unknown or malformed lines are
@@ -88,6 +89,46 @@ def runRetain (force : Bool) (p : Nat → Nat → Bool) (panicAt : Option Nat) (
         let (m, _) := replaceNode nd.key none (if force then none else some nd.vi) m
         go (i + 1) rest m
   go 0 (entries m) m
+
+/-! per-key history certificates (C01/C08): `lin init fin calls order` -/
+def parseKSt (s : String) : Option Lin.KSt :=
+  if s == "-" then some none else
+  match s.splitOn "." with
+  | [a, b] => do let a ← a.toNat?; let b ← b.toNat?; pure (some (a, b))
+  | _ => none
+
+def parseKOp (s : String) : Option Lin.KOp :=
+  match s.splitOn "." with
+  | ["ins", v, vi] => do let v ← v.toNat?; let vi ← vi.toNat?; pure (.ins v vi)
+  | ["tryins", v, vi] => do let v ← v.toNat?; let vi ← vi.toNat?; pure (.tryIns v vi)
+  | ["get"] => some .get
+  | ["has"] => some .has
+  | ["rm"] => some .rm
+  | ["cipinc", n] => n.toNat?.map .cipInc
+  | ["ciprm"] => some .cipRm
+  | _ => none
+
+def parseKRes (s : String) : Option Lin.KRes :=
+  match s.splitOn "." with
+  | ["none"] => some .none
+  | ["some", v, vi] => do let v ← v.toNat?; let vi ← vi.toNat?; pure (.some v vi)
+  | ["exists", v, vi] => do let v ← v.toNat?; let vi ← vi.toNat?; pure (.exists_ v vi)
+  | ["true"] => some (.bool true)
+  | ["false"] => some (.bool false)
+  | _ => none
+
+def parseCalls (s : String) : Option Lin.History :=
+  if s == "-" then some [] else
+  (s.splitOn ",").mapM fun c =>
+    match c.splitOn ":" with
+    | [tid, op, res, inv, resp] => do
+      let tid ← tid.toNat?; let op ← parseKOp op; let res ← parseKRes res
+      let inv ← inv.toNat?; let resp ← resp.toNat?
+      pure { tid, op, res, inv, resp }
+    | _ => none
+
+def parseOrder (s : String) : Option (List Nat) :=
+  if s == "-" then some [] else (s.splitOn ".").mapM (·.toNat?)
 
 def withCur (st : St) (f : Map → St × String) : St × String :=
   match st.slots[st.cur]? with
@@ -185,6 +226,15 @@ def step (st : St) (line : String) : St × String :=
       | .err => (st, "err")
       | .panic => (st, "panic")
     | none => (st, "bad-op")
+  | ["lin", ini, fin, calls, order] =>
+    match (kv "init=" ini).bind parseKSt, (kv "fin=" fin).bind parseKSt,
+          (kv "calls=" calls).bind parseCalls, (kv "order=" order).bind parseOrder with
+    | some i, some f, some h, some o =>
+      (st, if Lin.validate h o i f then "ok" else
+             match Lin.search h i f with
+             | some _ => "bad-certificate"      -- linearizable, but not by the order supplied
+             | none => "not-linearizable")
+    | _, _, _, _ => (st, "bad-op")
   | ["clear"] => withCur st fun m => (setCur st (clear m), "ok")
   | ["reserve", n] =>
     match n.toNat? with
